@@ -55,6 +55,26 @@ func (p *c05) RunCase(ctx *runner.Ctx) runner.CaseResult {
 	r := mon.Rng(ctx.Seed, "C05", ctx.Case)
 	adapter := adapt.Adapters[ctx.Case%2]
 	spec := ixSpec("tbl05", true)
+	// every fifth case runs on a table whose partition key is a NUMBER, with keys that are neighbours beyond
+	// float64 precision (2^53+1, 19-23 digit identifiers, the last of 38 digits): the target and one bystander
+	// differ only there
+	numeric := ctx.Case%5 == 3
+	hashPool := ixHashPool
+	hv := func(h string) val.V { return val.Str(h) }
+	if numeric {
+		spec.HashT = "N"
+		for i := range spec.Indexes {
+			if spec.Indexes[i].Hash == "h" {
+				spec.Indexes[i].HashT = "N"
+			}
+			if spec.Indexes[i].Range == "h" {
+				spec.Indexes[i].RangeT = "N"
+			}
+		}
+		hashPool = c13BigNumerals[:12] // consecutive entries (2k, 2k+1) are neighbours
+		hv = func(h string) val.V { return val.Num(h) }
+		x.r.Counters["numeric_key_cases"]++
+	}
 	cl, m, ds := freshClient(adapter, spec)
 	if ds != nil {
 		x.viol("setup", "create", ds[0].Detail, spec)
@@ -62,6 +82,7 @@ func (p *c05) RunCase(ctx *runner.Ctx) runner.CaseResult {
 	}
 	mk := func(h, rg string, i int) val.Item {
 		it := ixItem(h, rg, maybe(r, ixGPool, 30), maybe(r, ixSPool, 30), r.Intn(6))
+		it["h"] = hv(h)
 		if r.Intn(4) != 0 {
 			it["a"] = val.Str(mon.Pick(r, []string{"red", "blue", "green"}))
 		}
@@ -76,7 +97,7 @@ func (p *c05) RunCase(ctx *runner.Ctx) runner.CaseResult {
 	used := map[string]bool{}
 	bystanders := []val.Item{}
 	for i := 0; i < nb; i++ {
-		h, rg := mon.Pick(r, ixHashPool), mon.Pick(r, ixRangePool)
+		h, rg := mon.Pick(r, hashPool), mon.Pick(r, ixRangePool)
 		if used[h+"|"+rg] {
 			continue
 		}
@@ -87,12 +108,25 @@ func (p *c05) RunCase(ctx *runner.Ctx) runner.CaseResult {
 	}
 	var th, tr string
 	for {
-		th, tr = mon.Pick(r, ixHashPool), mon.Pick(r, ixRangePool)
+		th, tr = mon.Pick(r, hashPool), mon.Pick(r, ixRangePool)
 		if !used[th+"|"+tr] {
 			break
 		}
 	}
-	if r.Intn(3) == 0 {
+	if numeric {
+		// the neighbour of the target's partition key, same sort key, is a bystander
+		for i, h := range hashPool {
+			if h == th {
+				nb := hashPool[i^1]
+				if !used[nb+"|"+tr] {
+					used[nb+"|"+tr] = true
+					it := mk(nb, tr, 50)
+					bystanders = append(bystanders, it)
+					hist = append(hist, adapt.Op{Kind: adapt.OpPut, Table: spec.Name, Item: it})
+				}
+			}
+		}
+	} else if r.Intn(3) == 0 {
 		// confusable mode: the target and one bystander are a pair of keys that collide under a plausible but
 		// wrong composite-key encoding (mon.ConfusablePairs)
 		cp := mon.Pick(r, mon.ConfusablePairs())
@@ -120,7 +154,7 @@ func (p *c05) RunCase(ctx *runner.Ctx) runner.CaseResult {
 		x.failureViolation(adapter, f, spec)
 		return x.r
 	}
-	tkey := val.Item{"h": val.Str(th), "r": val.Str(tr)}
+	tkey := val.Item{"h": hv(th), "r": val.Str(tr)}
 	keys.Add(spec.Name, tkey)
 	// choose a discriminating condition
 	tItem := target
